@@ -96,3 +96,93 @@ Lemma fifo_strong_refuted_gen :
   prun lf op id_op (lf_wstep true false) true (store0, lf_empty 2) client0 fifo_strong_history
   = Some [OUnit; OPut None true; OGet (Some 0%nat); OUnit; OPeek (Some 101)].
 Proof. vm_compute. reflexivity. Qed.
+
+(** * Free(n, c): five calls (Cap, Len, Drop, Cap, Len) *)
+Lemma zlen_blocks (t : table) : zlen (blocks t) = tlen t.
+Proof. unfold zlen, tlen, blocks, zlen. rewrite map_length. reflexivity. Qed.
+
+(** Sequentially (no other call between the five): from every reachable
+    state Free m returns; it answers m <= cap; it leaves the capacity alone;
+    it evicts, by the eviction policy of the contract machine, exactly as many
+    blocks as are needed (none if m slots are free already); afterwards m
+    slots are free when m <= cap, and the cache is empty otherwise. *)
+Lemma lf_free_sequential_gen fifo n s c cl m :
+  1 <= n -> lf_reach fifo n (s, c) cl ->
+  exists c', lf_wstep fifo false (s, c) (Free m) = ((s, c'), OBool (m <=? cap c))
+    /\ cap c' = cap c
+    /\ blocks (tab c') = sdrop s (Z.to_nat (m - (cap c - tlen (tab c)))) (blocks (tab c))
+    /\ tlen (tab c') = Z.max 0 (Z.min (tlen (tab c)) (cap c - m))
+    /\ (m <= cap c -> m <= cap c' - tlen (tab c'))
+    /\ (cap c < m -> tlen (tab c') = 0).
+Proof.
+  intros Hn R.
+  destruct (lf_resize_drop_free_gen fifo n s c cl m Hn R) as (_ & _ & c' & E & H1 & H2 & H3).
+  pose proof (lf_refines_gen fifo n s c cl (Free m) s c' _ Hn R eq_refl E) as SP.
+  destruct (lf_cap_inv_gen fifo n s c cl Hn R) as (C2 & _ & C1).
+  assert (T0 : 0 <= tlen (tab c)) by (unfold tlen, zlen; lia).
+  assert (T1 : 0 <= tlen (tab c')) by (unfold tlen, zlen; lia).
+  assert (B' : blocks (tab c') = sdrop s (Z.to_nat (m - (cap c - tlen (tab c)))) (blocks (tab c))).
+  { unfold spec_wstep, wstep, id_op, free_via in SP. simpl in SP. rewrite zlen_blocks in SP.
+    destruct (m <=? cap c - tlen (tab c)) eqn:EE.
+    - inversion SP as [HH]. apply Z.leb_le in EE.
+      replace (Z.to_nat (m - (cap c - tlen (tab c)))) with O by lia. simpl. congruence.
+    - inversion SP as [HH]. reflexivity. }
+  exists c'. repeat split; auto.
+  - rewrite <- (zlen_blocks (tab c')), B', sdrop_length, zlen_blocks.
+    + lia.
+    + destruct (lf_reach_inv _ _ _ _ Hn R) as [(_ & _ & ND) _ _]. simpl in ND. eapply nodup_base_nodup; eauto.
+  - intros Hm. rewrite <- (zlen_blocks (tab c')), B', sdrop_length, zlen_blocks.
+    + lia.
+    + destruct (lf_reach_inv _ _ _ _ Hn R) as [(_ & _ & ND) _ _]. simpl in ND. eapply nodup_base_nodup; eauto.
+Qed.
+
+Lemma rnd_free_sequential_gen n s c cl m ch1 ch2 :
+  1 <= n -> rnd_reach n (s, c) cl ->
+  exists c', rnd_wstep (s, c) (Free m, ch1, ch2) = ((s, c'), OBool (m <=? rcap c))
+    /\ rcap c' = rcap c
+    /\ rtab c' = (if m <=? rcap c - tlen (rtab c) then rtab c
+                  else rnd_drop s ch1 ch2 (m - (rcap c - tlen (rtab c))) (rtab c))
+    /\ tlen (rtab c') = Z.max 0 (Z.min (tlen (rtab c)) (rcap c - m))
+    /\ (m <= rcap c -> m <= rcap c' - tlen (rtab c'))
+    /\ (rcap c < m -> tlen (rtab c') = 0).
+Proof.
+  intros Hn R. destruct (rnd_reach_inv _ _ _ Hn R) as [Ht ND [C1 C2] _]. simpl in *.
+  set (B := blocks (rtab c)) in *.
+  assert (TL : tlen (rtab c) = zlen B) by (rewrite Ht; apply tlen_tab_of).
+  assert (T0 : 0 <= zlen B) by (unfold zlen; lia).
+  unfold rnd_wstep, wstep, free_via. simpl. rewrite TL.
+  destruct (m <=? rcap c - zlen B) eqn:E.
+  - apply Z.leb_le in E. exists c. rewrite TL. repeat split; auto; try lia.
+    f_equal. f_equal. symmetry. apply Z.leb_le. lia.
+  - apply Z.leb_gt in E.
+    destruct (rnd_drop_ok s ch1 ch2 (m - (rcap c - zlen B)) B ND) as (B' & H1 & _ & _ & H4).
+    assert (TD : tlen (rnd_drop s ch1 ch2 (m - (rcap c - zlen B)) (rtab c)) = Z.max 0 (zlen B - Z.max 0 (m - (rcap c - zlen B)))).
+    { rewrite Ht, H1, tlen_tab_of. auto. }
+    eexists. split.
+    + cbn [rtab rcap]. rewrite TD. f_equal. f_equal.
+      destruct (m <=? rcap c) eqn:E2.
+      * apply Z.leb_le in E2. apply Z.leb_le. lia.
+      * apply Z.leb_gt in E2. apply Z.leb_gt. lia.
+    + cbn [rtab rcap]. rewrite TD. repeat split; auto; lia.
+Qed.
+
+(** Concurrently Free is NOT atomic: its five calls are separately
+    linearizable and another goroutine can run between them. Capacity 1, one
+    block held; goroutine 0 runs the calls of Free(1), goroutine 1 puts a
+    block after the Drop: the final Len reads 1 and Free answers
+    [1 <= 1 - 1] = false, an answer no sequential Free(1) on a cache of
+    capacity 1 gives. *)
+Definition free_race_w0 : store * lf :=
+  fst (wrun lf op id_op (fun _ o => o) (lf_step false false) (store0, lf_empty 1)
+         [Rebase 0%nat 0 true; Put 0%nat; Rebase 1%nat 1 true]).
+Definition free_race_sched : list nat :=
+  (repeat 0 15 ++ repeat 1 5 ++ repeat 0 10)%nat.
+
+Lemma free_not_atomic_gen :
+  let c := exec _ _ _ _ (fun _ => tt) (atomic_body (lf_wstep false false)) op_is_read
+             (init _ _ _ _ free_race_w0
+                (fun t => match t with O => [Cap; Len; Drop 1; Cap; Len] | 1%nat => [Put 1%nat] | _ => [] end))
+             free_race_sched in
+  map (res_of _ _) (lin _ _ _ _ c) = [ONum 1; ONum 1; OUnit; OPut None true; ONum 1; ONum 1]
+  /\ snd (lf_wstep false false free_race_w0 (Free 1)) = OBool true.
+Proof. vm_compute. split; reflexivity. Qed.
